@@ -14,6 +14,13 @@ Fixpoint bools_eqb (a b : list bool) : bool :=
   | _, _ => false
   end.
 
+Fixpoint singles_eqb (rs : list (res bool)) (bs : list bool) : bool :=
+  match rs, bs with
+  | [], [] => true
+  | r :: rs', b :: bs' => rbool_eqb r b && singles_eqb rs' bs'
+  | _, _ => false
+  end.
+
 Inductive case :=
 | Sip (key msg : list N) (out : N)                       (* siphash.Sum64 vs Gcs.SipHash *)
 | Red (v nhi nlo out : N)                                (* fastReduction *)
@@ -21,7 +28,6 @@ Inductive case :=
                                                          (* BuildGCSFilter: class, N(), Bytes() *)
 | Query (n P M : N) (bytes key : list N) (qs : list (list N))
         (single : list bool) (zip hash any : bool)       (* FromBytes(n,P,M,bytes) then Match each / Zip / Hash / MatchAny *)
-| Hint (n P : N) (bytes : list N) (hint : N)             (* measured pre-size request of HashMatchAny, when observable *)
 | Stream (P : N) (bytes : list N).                       (* model-internal: bstream machine reader = bit-list reader *)
 
 Definition check (c : case) : bool :=
@@ -37,14 +43,12 @@ Definition check (c : case) : bool :=
   | Query n P M bytes key qs single zip hash any =>
       match from_bytes n P M bytes with
       | Ok f =>
-          bools_eqb (map (fun q => match gmatch siphash f key q with Ok b => b | _ => negb (nth 0 single false) end) qs) single
-          && forallb (fun q => is_ok (gmatch siphash f key q)) qs
+          singles_eqb (map (gmatch siphash f key) qs) single
           && rbool_eqb (zip_match_any siphash isort f key qs) zip
           && rbool_eqb (hash_match_any siphash f key qs) hash
           && rbool_eqb (match_any siphash isort f key qs) any
       | _ => false
       end
-  | Hint n P bytes hint => size_hint (mkFilter n P 0 bytes) =? hint
   | Stream P bytes => stream_agree P bytes
   end.
 
